@@ -5,8 +5,10 @@ CONSTANTS
   Cap = 2
   MaxOps = 5
   DegreePins = TRUE
+  MemoChecksContent = TRUE
   Acts = {"compile"}
 INVARIANT C14_NoCrossTalk
 INVARIANT C14_DegreeOwn
+INVARIANT C14_BufferCurrent
 INVARIANT C14_Bounded
 CHECK_DEADLOCK FALSE
